@@ -12,21 +12,29 @@ open Bufr.Spec
 /-! ### recording primitives -/
 
 /-- The primitives record one (label, value) pair per call; `V s` reads the values recorded so far (of the
-    subset the bit-maps are taken from), in processing order. -/
-structure Rec (P : Prims) (V : St → List Val) : Prop where
+    subset the bit-maps are taken from), in processing order.  `X` is an invariant of the primitives that
+    `lastValues` may rely on (the encoder's: the value index does not exceed the number of values supplied). -/
+structure Rec (P : Prims) (V : St → List Val) (X : St → Prop) : Prop where
   quiet : Quiet P
   numeric : ∀ dd n sc r s s', P.numeric dd n sc r s = .ok s' → ∃ v, V s' = V s ++ [v]
   string : ∀ dd n s s', P.string dd n s = .ok s' → ∃ v, V s' = V s ++ [v]
   codeflag : ∀ dd n s s', P.codeflag dd n s = .ok s' → ∃ v, V s' = V s ++ [v]
   constant : ∀ dd c s s', P.constant dd c s = .ok s' → ∃ v, V s' = V s ++ [v]
   newRefval : ∀ e n s s', P.newRefval e n s = .ok s' → s'.descs = .plain e :: s.descs ∧ ∃ v, V s' = V s ++ [v]
-  lastValues : ∀ k s l, P.lastValues k s = .ok l → 1 ≤ k → k ≤ (V s).length → l = Spec.lastN k (V s)
+  lastValues : ∀ k s l, P.lastValues k s = .ok l → 1 ≤ k → k ≤ (V s).length → X s → l = Spec.lastN k (V s)
   /-- no primitive changes the NUMBER of value lists (subsets) -/
   numericL : ∀ dd n sc r s s', P.numeric dd n sc r s = .ok s' → s'.vals.length = s.vals.length
   stringL : ∀ dd n s s', P.string dd n s = .ok s' → s'.vals.length = s.vals.length
   codeflagL : ∀ dd n s s', P.codeflag dd n s = .ok s' → s'.vals.length = s.vals.length
   constantL : ∀ dd c s s', P.constant dd c s = .ok s' → s'.vals.length = s.vals.length
   newRefvalL : ∀ e n s s', P.newRefval e n s = .ok s' → s'.vals.length = s.vals.length
+  numericX : ∀ dd n sc r s s', P.numeric dd n sc r s = .ok s' → X s → X s'
+  stringX : ∀ dd n s s', P.string dd n s = .ok s' → X s → X s'
+  codeflagX : ∀ dd n s s', P.codeflag dd n s = .ok s' → X s → X s'
+  constantX : ∀ dd c s s', P.constant dd c s = .ok s' → X s → X s'
+  newRefvalX : ∀ e n s s', P.newRefval e n s = .ok s' → X s → X s'
+  setRegsX : ∀ s f, X s → X (s.setRegs f)
+  addLinkX : ∀ s o, X s → X (addLink s o)
   setRegs : ∀ s f, V (s.setRegs f) = V s
   addLink : ∀ s o, V (addLink s o) = V s
 
